@@ -1,11 +1,12 @@
 import TexcraftModel.Lemmas.C07
+import TexcraftModel.Lemmas.C07Scan
 
 /-!
 # C07 — property theorems
 
-Only the statements that *are* the property (helpers: `Lemmas/C07.lean`). The model is the
-code with `fixes/C07-a.patch` and `fixes/C07-f.patch` applied; the witnesses at the end show
-which statements are false for the formulas as they stand before the fixes.
+Only the statements that *are* the property (helpers: `Lemmas/C07*.lean`). The model describes
+/repo as it is (fixes C07-a, C09-f, C07-g applied); the witnesses further down show which
+statements are false for the formulas as they stood before those fixes.
 
 * `cond_selects`, `cond_selects_ok`, `cond_selects_unbalanced`, `expandAll_tree` — a
   well-nested tree of any depth delivers exactly its selected branch
@@ -263,12 +264,12 @@ example : Delivers [.iff .ff, .iff .tt, .els, .els, .orr, .bg, .fi, .fi, .other 
 example : bracesOk 0 (Text.select (.ifThen (.odd (-3)) (.plain .bg (.plain .eg .nil)) .nil)) = some 0 := by decide
 example : bracesOk 0 (Text.select (.ifThen (.odd (-3)) (.plain .eg .nil) .nil)) = none := by decide
 
-/-- C07-a: the formula in the repository before the fix, `(n % 2) == 1`, violates `ifodd_spec`
+/-- C07-a (fixed): the formula that was in the repository before the fix, `(n % 2) == 1`, violates `ifodd_spec`
 at `n = -3` (it answers "even"). -/
 example : ¬ (ifoddPreFix (-3) = true ↔ (-3 : Int) % 2 ≠ 0) := by decide
 example : ifodd (-3) = true ∧ ifodd (-2147483647) = true ∧ ifodd (-2147483648) = false := by decide
 
-/-- C09-f: before the fix the case counter is decremented at every `\or` of depth 0; at
+/-- C09-f (fixed): before the fix the case counter was decremented at every `\or` of depth 0; at
 `-2^31` that `i32` subtraction overflows (panic) where TeX — and the fixed code — select the
 `\else` branch. -/
 example : caseCounterPreFix (-2147483648) = none := by decide
@@ -282,5 +283,177 @@ gives `\xa a b C`. -/
 example :
     xaOptimized (macroExpander [⟨0, [.tok (.ch 2)]⟩]) 0 ()
       [.xa 0, .xa 0, .ch 0, .xa 0, .ch 1, .cs 0] = .ok ((), [.xa 0, .ch 0, .ch 1, .ch 2]) := by rfl
+
+/-! ## Deepening round: operands as tokens, one skipping theorem, equivalent mutants, `\noexpand`
+
+`Model/C07Scan.lean` extends the machine with the number scanner the conditions call on the
+expanded stream (`urun false` = the code, `urun true` = the code with TeX's rule TeX.2021.510);
+the `num` correspondence stream runs both against the real code on token-level programs. -/
+
+/-- **Operands the user writes, terminated (`_partial` of `C07_operands_full_statement`).**
+For every abstract program `l` whose operands are decimal constants (`|n| ≤ 2^31-1`), the
+surface machine — scanning signs and digits token by token, ending each number at its space —
+on the written-out program does exactly what the abstract machine does on `l`. Holds for the
+code and for TeX's rule alike. -/
+theorem operands_terminated (tex : Bool) (l : List Tok) (h : ∀ t ∈ l, t.operandsOk) :
+    urun tex {} (surfaceAll l) = liftRes (expandAll l) :=
+  surface_run tex l {} h
+
+/-- The same with the terminating space dropped wherever the next token is a *stopper*: any
+unexpandable non-digit non-space token for the code; additionally `\else`/`\or`/`\fi` under
+TeX's rule. -/
+theorem operands_loose (tex : Bool) (l : List (Tok × Bool)) (hl : looseOk tex l = true)
+    (h : ∀ p ∈ l, p.1.operandsOk) :
+    urun tex {} (surfaceL l) = liftRes (expandAll (l.map Prod.fst)) :=
+  surfaceL_run tex l {} hl h
+
+/-- `cond_selects` for the tokens the user writes: a well-nested tree with decimal operands,
+written out with terminated operands, delivers exactly the selected tokens (branch stack
+empty, no condition left under evaluation). -/
+theorem cond_selects_surface (tex : Bool) (t : Text) (g' : Nat)
+    (ho : ∀ tok ∈ t.flatten, tok.operandsOk) (hb : bracesOk 0 t.select = some g') :
+    urun tex {} (surfaceAll t.flatten) = .ok ⟨[], .deliver, g', t.select.map Plain.utok, []⟩ := by
+  rw [operands_terminated tex _ ho, expandAll_tree t g' hb]
+  simp only [liftRes, St.lift, Text.selectToks, List.map_map]
+  congr 2
+  apply List.map_congr_left
+  intro p _
+  cases p <;> rfl
+
+/-- The full statement: on *every* token-level program the code does what TeX's rule does. -/
+def C07_operands_full_statement : Prop := ∀ l : List UTok, urun false {} l = urun true {} l
+
+/-- It is false (finding C07-i, status known): `\ifodd 3\fi b`. The code executes the `\fi` while
+the `3` is still being scanned — nothing is on the branch stack yet — and reports
+`unexpected fi`; TeX ends the number there and delivers `b`. -/
+example : ¬ C07_operands_full_statement := by
+  intro h
+  have h1 := h [.iodd, .dig 3, .fi, .other 1]
+  have h2 : urun false {} [.iodd, .dig 3, .fi, .other 1] = .error (.cond .unexpectedFi) := by rfl
+  have h3 : urun true {} [.iodd, .dig 3, .fi, .other 1] = .ok ⟨[], .deliver, 0, [.other 1], []⟩ := by rfl
+  rw [h2, h3] at h1
+  cases h1
+
+/-- With an enclosing conditional the code does not even report an error: in
+`\iftrue \ifodd 3\else a\fi b\fi` the inner `\else` pops the *outer* branch and skips to the
+inner `\fi`; `b` then ends the number, `2` is even, so `b` is skipped up to the last `\fi`:
+nothing is delivered and no error is reported. TeX delivers `ab`. -/
+example :
+    urun false {} [.itrue, .iodd, .dig 2, .els, .other 0, .fi, .other 1, .fi]
+      = .ok ⟨[], .deliver, 0, [], []⟩
+    ∧ urun true {} [.itrue, .iodd, .dig 2, .els, .other 0, .fi, .other 1, .fi]
+      = .ok ⟨[], .deliver, 0, [.other 0, .other 1], []⟩ := by
+  constructor <;> rfl
+
+/-- hypotheses of `operands_loose` are satisfiable with an unterminated operand: `\ifodd 3a\fi`
+for the code, `\ifodd 3\fi` only under TeX's rule. -/
+example : looseOk false [(.iff (.odd 3), false), (.other 0, true), (.fi, true)] = true := by decide
+example : looseOk true [(.iff (.odd 3), false), (.fi, true)] = true
+    ∧ looseOk false [(.iff (.odd 3), false), (.fi, true)] = false := by decide
+
+/-- **One theorem for the five skipping loops** (depth invariant): from any point inside
+if/fi-balanced text — `k` conditionals deep, with `l` the text up to the matching `\fi`
+(`rawDepth k l = some 0`: `l` closes exactly those `k` conditionals and whatever it opens
+itself, and has no `\else`/`\or` at the loop's own level) — every loop, started at depth `k`,
+ends exactly at that `\fi` and hands control back to the main loop with the branch stack, the
+groups and the output untouched. -/
+theorem skip_ends_at_matching_fi (mk : Int → Mode) (h : IsSkip mk) (l : List Tok) (k : Nat)
+    (hl : rawDepth k l = some 0) (st : List BranchKind) (g : Nat) (o rest : List Tok) :
+    run ⟨st, mk k, g, o⟩ (l ++ .fi :: rest) = run ⟨st, .deliver, g, o⟩ rest :=
+  skip_ends_at_fi' mk h l k hl st g o rest
+
+/-- … and the two loops that look for `\else` (`false_case`, `if_case_primitive_fn`) stop at the
+first `\else` of their own level, pushing the `Else` branch. -/
+theorem skip_ends_at_matching_else (mk : Int → Mode)
+    (h : mk = Mode.skipFalse ∨ ∃ left, mk = Mode.skipCase left) (l : List Tok)
+    (hl : rawDepth 0 l = some 0) (st : List BranchKind) (g : Nat) (o rest : List Tok) :
+    run ⟨st, mk 0, g, o⟩ (l ++ .els :: rest) = run ⟨.els :: st, .deliver, g, o⟩ rest := by
+  have hs : IsSkip mk := by
+    rcases h with rfl | ⟨left, rfl⟩
+    · exact isSkip_false
+    · exact isSkip_case left
+  rw [skip_raw0 hs st g o l _ hl]
+  rcases h with rfl | ⟨left, rfl⟩ <;> rfl
+
+/-- Equivalent mutant 31 (`(n as i16 % 2) != 0`): parity survives truncation to 16 bits. -/
+theorem ifodd_truncated (n : Int) : ifodd (wrapI16 n) = ifodd n := ifodd_wrapI16' n
+
+/-- Equivalent mutant 28 (chain links compared as whole `Token`s, so never recognised): the
+optimized function whose chain test always fails *is* the simple one. -/
+theorem xa_never_chains {σ : Type} (E : Expander σ) (s : σ) (l : List XTok) :
+    xaNoChain E s l = xaSimple E s l := xaNoChain_eq' E l s
+
+/-- What does hold of the code for `\noexpand` under `\expandafter` (C07-h): it is a no-op there —
+`\expandafter t1 \noexpand t …` leaves `t1 t …`, with `t` as expandable as ever; both
+implementations agree on that (`xa_equiv`). -/
+theorem noexpand_is_noop_under_expandafter {σ : Type} (E : Expander σ) (name : Nat) (s : σ)
+    (t1 t : XTok) (rest : List XTok) :
+    xaSimple E s (t1 :: .noexp :: t :: rest) = .ok (s, t1 :: t :: rest)
+    ∧ xaOptimized E name s (t1 :: .noexp :: t :: rest) = .ok (s, t1 :: t :: rest) := by
+  constructor
+  · rfl
+  · rw [← xa_equiv]; rfl
+
+/-- The fuel of the surface machine (`frames.length + 2` per token and at end of input) always
+suffices: no run ends in the `fuel` outcome. -/
+theorem scan_fuel_suffices (tex : Bool) (s : USt) (l : List UTok) : urun tex s l ≠ .error .fuel :=
+  urun_no_fuel tex l s
+
+/-- Writing a program as loosely as a rule allows (`loosen`, what the driver's `surf` request
+does with `tex = false`) stays inside the domain of `operands_loose` and changes nothing:
+for the code, any abstract program with decimal operands may drop every terminating space
+that is followed by an unexpandable non-digit non-space token. -/
+theorem operands_loosened (tex : Bool) (l : List Tok) (h : ∀ t ∈ l, t.operandsOk) :
+    urun tex {} (surfaceL (loosen tex l)) = liftRes (expandAll l) := by
+  have := operands_loose tex (loosen tex l) (looseOk_loosen tex l)
+    (by rw [← loosen_fst tex l] at h; intro p hp; exact h p.1 (List.mem_map_of_mem hp))
+  rwa [loosen_fst] at this
+
+/-- **What TeX's rule achieves (the target of a fix for C07-i):** under TeX.2021.510 a
+well-nested tree with decimal operands delivers its selected tokens also when every operand
+that is directly followed by `\else`/`\or`/`\fi` (or any other stopper) is written without
+its terminating space. For the code (`tex = false`) the same statement is refuted above. -/
+theorem cond_selects_surface_tex_loose (t : Text) (g' : Nat)
+    (ho : ∀ tok ∈ t.flatten, tok.operandsOk) (hb : bracesOk 0 t.select = some g') :
+    urun true {} (surfaceL (loosen true t.flatten)) = .ok ⟨[], .deliver, g', t.select.map Plain.utok, []⟩ := by
+  rw [operands_loosened true _ ho, expandAll_tree t g' hb]
+  simp only [liftRes, St.lift, Text.selectToks, List.map_map]
+  congr 2
+  apply List.map_congr_left
+  intro p _
+  cases p <;> rfl
+
+/-- non-vacuity: `\ifodd 3\fi b` *is* `surfaceL (loosen true …)` of the tree `\ifodd 3 \fi b`. -/
+example : surfaceL (loosen true (Text.flatten (.ifThen (.odd 3) .nil (.plain (.other 1) .nil))))
+    = [.iodd, .dig 3, .fi, .other 1] := by
+  have h3 : decDigits 3 = [3] := by rw [decDigits]; simp
+  simp [surfaceL, loosen, Text.flatten, surfaceT, surface, numToks, Tok.hasOperand, stopper, Plain.tok, h3]
+
+/-- **The exact boundary of C07-i.** The code and TeX's rule take the same step on every token in
+every state, except when `\else`/`\or`/`\fi` arrives while the innermost open conditional is
+still scanning its operand (`closesWhileScanning`); hence they agree on every program along
+whose run that situation never arises. (The refutation above is the smallest program where
+it does.) -/
+theorem c07i_exact_boundary (s : USt) (t : UTok) (h : closesWhileScanning s t = false) :
+    ustep false s t = ustep true s t := code_eq_tex_step' s t h
+
+theorem c07i_exact_boundary_run (s : USt) (l : List UTok) (h : neverClosesWhileScanning s l = true) :
+    urun false s l = urun true s l := code_eq_tex_run' l s h
+
+/-- non-vacuity: `\ifodd 3a\fi` never closes while scanning, `\ifodd 3\fi` does. -/
+example : neverClosesWhileScanning {} [.iodd, .dig 3, .other 0, .fi] = true
+    ∧ neverClosesWhileScanning {} [.iodd, .dig 3, .fi] = false := by
+  constructor <;> rfl
+
+/-- … and the `\ifcase` loop at the first `\or` of its own level: it counts down; the case that
+brings the counter to 0 is delivered (as a `Switch` branch), a non-positive counter (negative
+`\ifcase` value) is never changed. -/
+theorem skip_ends_at_matching_or (left : Int) (l : List Tok) (hl : rawDepth 0 l = some 0)
+    (st : List BranchKind) (g : Nat) (o rest : List Tok) :
+    run ⟨st, .skipCase left 0, g, o⟩ (l ++ .orr :: rest) =
+      if left = 1 then run ⟨.switch :: st, .deliver, g, o⟩ rest
+      else if left > 1 then run ⟨st, .skipCase (left - 1) 0, g, o⟩ rest
+      else run ⟨st, .skipCase left 0, g, o⟩ rest :=
+  skip_case_or' left l hl st g o rest
 
 end C07
